@@ -26,7 +26,7 @@ func init() {
 	register(&Rule{ID: "LIB-math", Props: []string{"C13"}, Min: 4,
 		Doc: "S: library special cases that differ from ES5 §15.8.2 are guarded: Math.pow tests |x| == 1 with infinite y (math.Pow gives 1, ES5 NaN); Math.max/min test NaN before math.Max/Min (which let an infinity win over NaN); Math.round is not built on math.Round (half away from zero) ; isNaN/isFinite apply ToNumber to their argument",
 		Run: ruleLibMath})
-	register(&Rule{ID: "LIB-parse", Props: []string{"C06", "C05", "C13"}, Min: 3,
+	register(&Rule{ID: "LIB-parse", Props: []string{"C06", "C05", "C13", "C03"}, Min: 3,
 		Doc: "S: strconv.ParseFloat / ParseInt accept more than the ES5 numeric grammars (inf, infinity, nan, hex floats, digit separators, 0b/0o prefixes); every call on script text must be dominated by a grammar guard (a regexp match or being fed by the ES5 lexer), and a ParseFloat range error (value rounds to ±Inf) must not be treated as a syntax failure",
 		Run: ruleLibParse})
 }
@@ -481,6 +481,79 @@ func ruleLibMath(c *Ctx, r *R) {
 			}
 		}
 		return out
+	}
+	// result provenance: a Math function that is built on the library function of the same name returns that function's
+	// result (or a constant, NaN, an argument): a second library function or arithmetic computing the result on some
+	// inputs is a fast path with its own special cases (math.Sqrt(-Inf) is NaN where math.Pow(-Inf, 0.5) is +Inf)
+	{
+		var names []string
+		for n := range bound {
+			names = append(names, n)
+		}
+		sort.Strings(names)
+		predicates := map[string]bool{"IsNaN": true, "IsInf": true, "NaN": true, "Inf": true, "Signbit": true}
+		for _, n := range names {
+			fn := c.SSAFunc(bound[n])
+			if fn == nil || n == "" {
+				continue
+			}
+			lib := strings.ToUpper(n[:1]) + n[1:]
+			if len(callsLib(fn, "math", lib)) == 0 {
+				continue
+			}
+			// values handed to float64Value (or returned as float64)
+			var offender ssa.Instruction
+			var what string
+			seen := map[ssa.Value]bool{}
+			var trace func(v ssa.Value)
+			trace = func(v ssa.Value) {
+				if v == nil || seen[v] || offender != nil {
+					return
+				}
+				seen[v] = true
+				switch x := v.(type) {
+				case *ssa.Phi:
+					for _, e := range x.Edges {
+						trace(e)
+					}
+				case *ssa.Call:
+					callee := x.Call.StaticCallee()
+					if callee != nil && callee.Pkg != nil && callee.Pkg.Pkg.Path() == "math" && callee.Name() != lib && !predicates[callee.Name()] {
+						offender, what = x, "math."+callee.Name()
+					}
+				case *ssa.BinOp:
+					switch x.Op {
+					case token.ADD, token.SUB, token.MUL, token.QUO:
+						offender, what = x, "arithmetic ("+x.Op.String()+")"
+					}
+				case *ssa.UnOp:
+					if x.Op == token.MUL {
+						if al, ok := x.X.(*ssa.Alloc); ok {
+							for _, ref := range *al.Referrers() {
+								if st, ok := ref.(*ssa.Store); ok {
+									trace(st.Val)
+								}
+							}
+						}
+					}
+				}
+			}
+			for _, b := range fn.Blocks {
+				for _, ins := range b.Instrs {
+					if call, ok := ins.(*ssa.Call); ok {
+						if callee := call.Call.StaticCallee(); callee != nil && callee.Name() == "float64Value" && len(call.Call.Args) == 1 {
+							trace(call.Call.Args[0])
+						}
+					}
+				}
+			}
+			key := "result:" + n
+			if offender == nil {
+				r.ok(key, c.Pos(fn.Pos()), "every result is the value of math."+lib+", a constant or an argument")
+			} else {
+				r.bad(key, c.Pos(instrPos(offender)), fmt.Sprintf("Math.%s is built on math.%s but on some inputs returns the result of %s instead: a fast path has the special cases of the other operation, not those of ES5 15.8.2 (`Math.pow(-Infinity, 0.5)` must be +Infinity, math.Sqrt(-Inf) is NaN; `1/Math.pow(-0, 0.5)` must be +Infinity)", n, lib, what))
+			}
+		}
 	}
 	// pow
 	if fn := c.SSAFunc(bound["pow"]); fn != nil {
